@@ -131,10 +131,16 @@ def r_ordered(prog, tier):
             kinds.append('sorted-other')
         elif isinstance(v, ast.Name):
             kinds.append('unsorted-name')
+        elif v is not None and any(isinstance(x, ast.Attribute) and x.attr == 'children' and unparse(x.value) == P
+                                   for x in ast.walk(v)) and not any(
+                isinstance(x, ast.Call) and isinstance(x.func, ast.Name) and x.func.id == 'sorted' for x in ast.walk(v)):
+            kinds.append('stored-children')
         else:
             kinds.append('?')
     if rec and over_children and sorted(set(kinds)) == ['leaf', 'sorted']:
         ok, why = True, 'leaf returns [tree]; otherwise the terminals of all children, sorted by token number'
+    elif 'stored-children' in kinds:
+        ok, why = False, 'a return of terminals() hands back the stored child list as it is: tokens come out in storage order'
     elif 'unsorted-name' in kinds or 'sorted-other' in kinds:
         ok, why = False, 'a return of terminals() hands back the collected tokens without sorting them by number'
     obs.append(Ob('R-ORDERED/DEF', f.fq, 'terminals() returns the tokens sorted by number', ok, why,
@@ -388,6 +394,32 @@ def r_levels(prog, tier):
                       'guarded by has_children(...)' if g else ('tokens would get a level and later an export number that '
                       'overwrites their position' if not hc_anywhere else 'guard not recognised'),
                       construct='lvl-store:' + unparse(n.ast), line=n.lineno))
+    # the two tables (level -> nodes, node -> level) are filled together
+    loopv = None
+    for n in cfg.eval_nodes():
+        if n.kind == 'iter' and not n.loops and isinstance(n.ast.target, ast.Name):
+            loopv = n.ast.target.id
+    if loopv:
+        app = [n for n in stores if isinstance(n.ast, ast.Expr) and isinstance(n.ast.value, ast.Call)
+               and n.ast.value.func.attr == 'append' and n.ast.value.args and unparse(n.ast.value.args[0]) == loopv]
+        rev = [n for n in stores if isinstance(n.ast, ast.Assign) and unparse(n.ast.targets[0].slice) == loopv]
+        if app and rev:
+            together = all(cfg.always_with(a.id, r.id) and cfg.always_with(r.id, a.id) for a in app for r in rev)
+            cond = None
+            if not together:
+                for r in rev:
+                    extra = [x[0] for x in facts_at(cfg, r.id) if x[0] not in [y[0] for y in facts_at(cfg, app[0].id)]]
+                    if extra:
+                        cond = (unparse(r.ast), extra[-1])
+                for a in app:
+                    extra = [x[0] for x in facts_at(cfg, a.id) if x[0] not in [y[0] for y in facts_at(cfg, rev[0].id)]]
+                    if extra:
+                        cond = (unparse(a.ast), extra[-1])
+            obs.append(Ob('R-LEVELS', f.fq, 'every constituent is entered into both level tables',
+                          True if together else (False if cond else None),
+                          'the two recordings always happen together' if together else
+                          ('`%s` additionally depends on %s: some constituents are missing from one of the two tables'
+                           % cond if cond else 'recordings not matched'), construct='lvl-both', line=f.node.lineno))
     # the recorded level is a maximum over the paths to the tokens
     lv = None
     for n in stores:
@@ -640,6 +672,15 @@ def r_nav(prog, tier):
             and cfg.dominates(n.id, inloop[0].id) for n in cfg.eval_nodes())
         ok = True if (d0 and climb and cfg.dominates(first[0].id, w.id)) else None
         why = 'yields the node, then each parent while one exists' if ok else 'first yield is the node: %s, climb loop: %s' % (d0, climb)
+    if first:
+        rets_ = [n for n in cfg.eval_nodes() if n.kind == 'stmt' and isinstance(n.ast, ast.Return)]
+        early = [r for r in rets_ if r.id in cfg.reach(cfg.entry, avoid=frozenset([first[0].id]))]
+        v0_ = unparse(first[0].ast.value.value)
+        is_node = v0_ == t or any(isinstance(v, ast.AST) and unparse(v) == t for (_, v) in name_defs(f, v0_))
+        if early and is_node:
+            ok = False
+            why = 'line %d returns before the node itself is yielded: for that case the path is empty instead of starting ' \
+                  'with the node' % early[0].lineno
     obs.append(Ob('R-NAV', f.fq, 'dominance() runs from the node through every ancestor to the root', ok, why,
                   construct='nav-dominance', line=f.node.lineno))
     return obs, {}
